@@ -21,6 +21,7 @@ RULE = (
     "by multiples of 2*pi. Non-trivial: a point checked at depth >= 2; distinct by (cs, point)."
     ' Also: 60-step tracks at one depth (steps of 0.05-0.4 tile widths), back-to-back pixel lookups of positions nanoradians apart at d'
     'epths 12-24, lookups from four concurrent threads.'
+    ' Round 8: raw longitudes within 5e-324..9e-16 of multiples of 2pi.'
 )
 ASSUMPTIONS = ["reference TOAST subdivision follows the documentation", "compiled extension as built; .pyx coherent with .c"]
 
